@@ -25,7 +25,7 @@ ASSUMPTIONS = [
     "labels is not defined by the manual) or use {symbol} expansion in the instruction field (evaluated while a "
     "macro body is read)",
 ]
-KINDS = ["opcase", "ws", "cmtadd", "cmtdel", "blank", "colon", "symcase", "symcaseall"]
+KINDS = ["opcase", "ws", "wsarg", "cmtadd", "cmtdel", "blank", "colon", "symcase", "symcaseall"]
 
 
 def budget(tier):
@@ -156,6 +156,7 @@ def fixed_cases(tier):
         out.append(dict(test=n, edits=[[k, 1, 0, 2] for k in KINDS if k != "cmtdel"], flags=dict(crlf=False, include=False, macro=False)))
         out.append(dict(test=n, edits=[["cmtdel", 1, 0, 0], ["opcase", 1, 0, 1], ["ws", 1, 0, 5]],
                         flags=dict(crlf=True, include=False, macro=False)))
+        out.append(dict(test=n, edits=[["wsarg", 1, 0, 1]], flags=dict(crlf=False, include=False, macro=False)))
         out.append(dict(test=n, edits=[], flags=dict(crlf=False, include=True, macro=False)))
         out.append(dict(test=n, edits=[], flags=dict(crlf=False, include=False, macro=True)))
         # all symbols re-spelled on alternating lines (definition, use and closing statement of a name differ in case)
